@@ -112,7 +112,7 @@ theorem sinvl_step_eMark {c : Cfg} {s s' : St} {t : Tid} {ev : Ev} {L : List Nat
     case eff => eff_close
 
 set_option maxHeartbeats 8000000 in
-theorem sinvl_step_iCas {c : Cfg} (hc : SOHyp c) {s s' : St} {t : Tid} {ev : Ev} {L : List Nat} {w : OpK} {d prev : Nat}
+theorem sinvl_step_iCas {c : Cfg} {s s' : St} {t : Tid} {ev : Ev} {L : List Nat} {w : OpK} {d prev : Nat}
     {cur : Option Nat}
     (h : SInvL c s L) (hpc : s.pc t = .iCas w d prev cur) (hs : step c s t = some (s', ev)) :
     ∃ L', SInvL c s' L' ∧ StepEff c s t s' L L' := by
